@@ -4,7 +4,7 @@ ROOT = pathlib.Path(__file__).resolve().parent.parent
 sys.path.insert(0, str(ROOT))
 from sa.cli import analyse, PROPS
 SRC = pathlib.Path("/repo/src/aioftp")
-allm = {x["id"]: x for x in json.loads(pathlib.Path("/root/work/mut/mutants.json").read_text())}
+allm = {x["id"]: x for f in ("mutants.json", "mutants2.json") if pathlib.Path("/root/work/mut", f).exists() for x in json.loads(pathlib.Path("/root/work/mut", f).read_text())}
 x = allm[int(sys.argv[1])]
 import ast
 orig = ast.unparse(ast.parse((SRC / x["module"]).read_text()))
